@@ -192,6 +192,11 @@ func pinnedCases() []pinned {
 		innerCase("C04", "C04/flatten_decode_drops_child.json", "both", "c04", "DoRequest", s, "flatten")
 	}
 	{
+		s, req, _, _, _ := baseSchema("p0085")
+		req.Fields = append(req.Fields, &schema.Field{Name: "seen_at", Number: 2, Kind: schema.KTimestamp, Card: schema.Singular, Ann: &schema.Ann{EmptyBehavior: 2}})
+		innerCase("C04", "C04/empty_behavior_null_on_timestamp.json", "both", "c04", "DoRequest", s, "empty_behavior_wkt")
+	}
+	{
 		s, req, _, _, _ := baseSchema("p0028")
 		v := &schema.Message{Name: "Shipping", Fields: []*schema.Field{fld("zip_code", 1, schema.KString, schema.Singular), fld("weight", 2, schema.KInt64, schema.Singular)}}
 		s.Files[0].Messages = append(s.Files[0].Messages, v)
